@@ -11,12 +11,12 @@ CHECKS = {
  "C01": dict(
     level="model_checking", ref="DESIGN.md §4 C01",
     technique="TLA+ spec RtStream/RtStreamAbs checked by TLC + TLC-generated call sequences replayed through libovni and validated against the spec (trace validation)",
-    text="TLC explores every call sequence of the scaled faithful model (CAP=56) and every fill level of the real 2 MiB buffer in the size-abstracted model; invariants Fidelity, OnlyMarkers, HeaderFirst, Tiling, BufferBound. The spec is bound to src/rt/ovni.c by replaying every call at every one of the last 64 fill levels plus TLC -simulate walks through the real library and validating the recorded file sizes and the decoded stream with RtStreamTrace.tla; runs are repeated under an LD_PRELOAD shim that makes write() truthfully short, and three-thread programs (all threads freeing at once, with and without relocation from OVNI_TMPDIR) are validated stream by stream; scripts also run with relocation, with 7-digit pid/tid, without the execute event in front, with payloads handed over in several ovni_payload_add calls, with the wall clock stepped backwards under the shim, with every sequence of up to three small events before the first flush, with every sequence of up to three flush-separated segments made of one kind of call only (plain events / marks / fitting jumbo events), with the call under test as the last thing before the final flush, as programs with a time base of their own that starts at zero (clocks handed over = clocks in the stream), and with metadata updates (ovni_attr_set/flush) between the events. The inductive invariant 0 <= fill < CAP and no nested flush (RtStreamInd.tla, same arithmetic module) is discharged by Apalache for the real capacity and a symbolic jumbo size.",
+    text="TLC explores every call sequence of the scaled faithful model (CAP=56) and every fill level of the real 2 MiB buffer in the size-abstracted model; invariants Fidelity, OnlyMarkers, HeaderFirst, Tiling, BufferBound. The spec is bound to src/rt/ovni.c by replaying every call at every one of the last 64 fill levels plus TLC -simulate walks through the real library and validating the recorded file sizes and the decoded stream with RtStreamTrace.tla; runs are repeated under an LD_PRELOAD shim that makes write() truthfully short, and three-thread programs (all threads freeing at once, with and without relocation from OVNI_TMPDIR) are validated stream by stream; scripts also run with relocation (incl. OVNI_TMPDIR being the trace directory itself, under another name or the same, existing or not), with 7-digit pid/tid, without the execute event in front, with payloads handed over in several ovni_payload_add calls, with the wall clock stepped backwards under the shim, with every sequence of up to three small events before the first flush, with every sequence of up to three flush-separated segments made of one kind of call only (plain events / marks / fitting jumbo events), with the call under test as the last thing before the final flush, as programs with a time base of their own that starts at zero (clocks handed over = clocks in the stream), and with metadata updates (ovni_attr_set/flush) between the events. The inductive invariant 0 <= fill < CAP and no nested flush (RtStreamInd.tla, same arithmetic module) is discharged by Apalache for the real capacity and a symbolic jumbo size.",
     note="Payload/jumbo bytes are opaque ids in TLA+; their byte equality (MCV, clock, payload, jumbo data) is checked by the harness decoder against the driver's emit log. Logical clock abstracts CLOCK_MONOTONIC. Exhaustive only within the stated constants."),
  "C02": dict(
     level="model_checking", ref="DESIGN.md §4 C02",
     technique="TLA+ spec RtStream/RtStreamAbs checked by TLC (ClockMonotone, FlushPaired, NoNestedFlush) + Apalache inductive invariant (RtStreamInd) + negative configurations + replay of TLC-generated protocol-conformant programs through libovni, trace validation and ovniemu -l",
-    text="Same models as C01 with the validity invariants (tiling, monotone clocks, paired non-nested flush markers); the arithmetic of the pinned commit is kept as a negative configuration that TLC must refute. A quarter of the three-thread programs is an MPI rank (set by the thread whose directory sorts last) next to a second process of the same loom. Every generated program is run against the real library, its stream validated by RtStreamTrace.tla (observed markers paired, clocks monotone, sizes) and the directory is fed to ovniemu -l which must accept.",
+    text="Same models as C01 with the validity invariants (tiling, monotone clocks, paired non-nested flush markers); the arithmetic of the pinned commit is kept as a negative configuration that TLC must refute. A 48-thread program is emulated with 40 file descriptors. A quarter of the three-thread programs is an MPI rank (set by the thread whose directory sorts last) next to a second process of the same loom. Every generated program is run against the real library, its stream validated by RtStreamTrace.tla (observed markers paired, clocks monotone, sizes) and the directory is fed to ovniemu -l which must accept.",
     note="Programs are single-threaded scripts plus three-thread programs whose threads run such scripts concurrently (forced interleavings are C11). Exhaustive within constants; the emulator is part of the observation."),
 
  "C04": dict(
@@ -37,7 +37,7 @@ CHECKS = {
  "C07": dict(
     level="model_checking", ref="DESIGN.md §4 C07",
     technique="TLA+ spec EmuFull (task/body state machine of task.c/body.c with the nOS-V and Nanos6 rules) explored by TLC with invariants; transition cover replayed on ovniemu; task id/type/body/app/rank timelines validated by EmuTrace.tla",
-    text="Bounded nOS-V model (normal, parallel and second normal task, 2 threads, rank) and Nanos6 model (relaxed nesting, rank) explored exhaustively with BodyRunsOnAtMostOneThread, OnlyTopRuns, TaskChansMirrorBodies, ParallelNeverPaused; 8000 (quick) histories incl. every rejected transition class replayed on the emulator.",
+    text="Bounded nOS-V model (normal, parallel and second normal task, 2 threads, rank) and Nanos6 model (relaxed nesting, rank) explored exhaustively with BodyRunsOnAtMostOneThread, OnlyTopRuns, TaskChansMirrorBodies, ParallelNeverPaused; 8000 (quick) histories incl. every rejected transition class replayed on the emulator, plus histories with both task models in one trace.",
     note="Task types compared through PCF labels; a Nanos6 task started directly over TASK_BODY is Unspecified."),
  "C08": dict(
     level="model_checking", ref="DESIGN.md §4 C08",
@@ -95,7 +95,7 @@ CHECKS = {
  "C03": dict(
     level="model_checking", ref="DESIGN.md §4 C03",
     technique="TLA+ specs Player/PlayerMerge (property layer Merge), PtrHeap/PlayerHeap/HeapOps (heap.h and player.c transcribed) checked by TLC incl. refinement HeapPlayer => Merge; exported heap op sequences replayed on the real heap.h (drivers/heapharness), exported stream sets replayed through ovnidump/ovnitop/ovniemu in several enumeration orders and validated by PlayerTrace.tla",
-    text="TLC checks the structural heap invariants and that every emission of the pointer-heap player is an allowed step of the abstract k-way merge (ties free), corrected clocks and output times, independence of the enumeration order, with 12 refuted negative configurations. ~19k heap op sequences are replayed on heap.h comparing popped keys and the whole pointer structure; 1200 (quick) stream sets with offset tables are materialised in several directory orders (and nftw orders through a shim), also with clocks seconds apart, with looms sharing a host name, with host names one of which is a prefix of the other, with one loom per process and ranks placed round-robin over the hosts, with offset tables in integer / fixed / exponent notation with an extra event-less non-thread stream and with a loom or thread directory reached through a symbolic link, and the observed replay order / PRV times validated by TLC.",
+    text="TLC checks the structural heap invariants and that every emission of the pointer-heap player is an allowed step of the abstract k-way merge (ties free), corrected clocks and output times, independence of the enumeration order, with 12 refuted negative configurations. ~19k heap op sequences are replayed on heap.h comparing popped keys and the whole pointer structure; 1200 (quick) stream sets with offset tables are materialised in several directory orders (and nftw orders through a shim), also with clocks seconds apart, with looms sharing a host name, with host names one of which is a prefix of the other, with one loom per process and ranks placed round-robin over the hosts, with offset tables in integer / fixed / exponent notation without the final newline, with an extra event-less non-thread stream and with a loom or thread directory reached through a symbolic link, and the observed replay order / PRV times validated by TLC.",
     note="ovnidump/ovnitop have no clock-offset input (offsets exercised on ovniemu only); a stream whose first corrected clock is negative is refused by the code (modelled via Base, assumption)."),
  "C12": dict(
     level="model_checking", ref="DESIGN.md §4 C12",
@@ -106,7 +106,7 @@ CHECKS = {
  "C16": dict(
     level="model_checking", ref="DESIGN.md §4 C16",
     technique="TLA+ spec OvniSort (property layer SortedStablePermutation/PrefixUntouched/Idempotent + implementation layer: region automaton, look-back ring, find_destination, stable re-sort, ring rebuild) checked by TLC for refinement over all small streams; exported streams replayed through ovnisort / ovnisort -c / ovniemu and random larger runs validated by OvniSortTrace.tla",
-    text="TLC explores every stream of <=6 events over 3-4 clock values with regions, jumbo events and several ring sizes (0.77M states quick, 9.8M thorough): Impl => Property, tightness of the look-back precondition, idempotence, five refuted negative configurations. ~7400 exported (stream, ring) pairs are materialised byte for byte and the tool's exit status, output order, size, untouched prefix, second run, check mode and emulator verdict compared with TLC's; random streams up to thousands of events and traces with two streams (the look-back ring must not leak between streams; a stream that cannot be sorted followed by a sorted one must still fail the run) are validated in the recorded direction; a third of all cases is written with clocks seconds apart (differences beyond 2^31 ns), about half of the normal events carry no payload, and streams of ~3000 events dominated by one region that belongs near the start are sorted with the default window.",
+    text="TLC explores every stream of <=6 events over 3-4 clock values with regions, jumbo events and several ring sizes (0.77M states quick, 9.8M thorough): Impl => Property, tightness of the look-back precondition, idempotence, five refuted negative configurations. ~7400 exported (stream, ring) pairs are materialised byte for byte and the tool's exit status, output order, size, untouched prefix, second run, check mode and emulator verdict compared with TLC's; random streams up to thousands of events (incl. disorder outside the regions before and after legal regions) and traces with two streams (the look-back ring must not leak between streams; a stream that cannot be sorted followed by a sorted one must still fail the run) are validated in the recorded direction; a third of all cases is written with clocks seconds apart (differences beyond 2^31 ns), about half of the normal events carry no payload, and streams of ~3000 events dominated by one region that belongs near the start are sorted with the default window.",
     note="Stability relies on glibc's merge-sort qsort; outside the preconditions the tool may fail; exit 0 always means a sorted stream (fixed defect c7e4054); a second run may fail when the sorted stream no longer satisfies the look-back (file unchanged)."),
 
  "C19": dict(
